@@ -123,6 +123,12 @@ class CoroRef:
             if k == "sig":
                 self.pend[s[1]] = self.ev(s[2])
                 self.fresh = False
+            elif k == "sigs":
+                _, t, hi, lo, e = s
+                m = ((1 << (hi - lo + 1)) - 1)
+                cur = self.pend.get(t, self.sig[t])
+                self.pend[t] = (cur & ~(m << lo)) | ((self.ev(e) & m) << lo)
+                self.fresh = False
             elif k == "var":
                 self.vars[s[1]] = self.ev(s[2])
                 self.fresh = False
